@@ -149,6 +149,8 @@ class Engine:
         self.notes = []
         self.heap_log = []        # (op, obj, detail) for frame checks
         self.loop_guard = None
+        self.witness_fn = None
+        self._last_loop_idx = 0
 
     # ------------------------------------------------------------------------------------------
     # symbols, facts, decisions, obligations
@@ -284,7 +286,17 @@ class Engine:
             dt += dt2
             if st2 in ("proved", "refuted"):
                 status, backend = st2, be2
-        ob = Obligation(name, status, dt, backend, model=self.model_summary(model) if model is not None else None,
+        summary = None
+        if model is not None:
+            summary = self.model_summary(model)
+            if self.witness_fn is not None:
+                try:
+                    w = self.witness_fn(model)
+                    if w is not None:
+                        summary["__witness__"] = w
+                except Exception as e:      # a witness is a convenience, never a verdict
+                    summary["__witness_error__"] = repr(e)[:200]
+        ob = Obligation(name, status, dt, backend, model=summary,
                         path=self.path_id, detail=detail or (str(z3.simplify(goal))[:300]), kind=kind)
         self.obligations.append(ob)
         if status == "proved":
